@@ -10,7 +10,7 @@ namespace DI
 /-- no leak: a member selected for `q` matches `q` with a substitution that instantiates every parameter the
     member did not relax with a `Sized` type -/
 theorem C15_no_leak (W : World) (F : Family) (m : Member) (q : T) :
-    genSel W F m q → ∃ ρ, noEx ρ ∧ inst ρ m.blk.hdr = q ∧ sizedOK W ρ m.blk.sizedParams := by
+    genSel W F m q → ∃ ρ, wkB ρ m.blk = true ∧ inst ρ m.blk.hdr = q ∧ sizedOK W ρ m.blk.sizedParams := by
   intro h
   obtain ⟨ρ, h0, h1, _, h3⟩ := gen_sub_spec W F m q h
   exact ⟨ρ, h0, h1, h3⟩
@@ -18,7 +18,7 @@ theorem C15_no_leak (W : World) (F : Family) (m : Member) (q : T) :
 /-- contrapositive: a member that did not relax a parameter never answers a query that instantiates it with an
     unsized type -/
 theorem C15_no_leak_contra (W : World) (F : Family) (m : Member) (q : T)
-    (h : ∀ ρ, noEx ρ → inst ρ m.blk.hdr = q → ∃ p ∈ m.blk.sizedParams, W.sized (inst ρ (.tparam p)) = false) :
+    (h : ∀ ρ, wkB ρ m.blk = true → inst ρ m.blk.hdr = q → ∃ p ∈ m.blk.sizedParams, W.sized (inst ρ (.tparam p)) = false) :
     ¬ genSel W F m q := by
   intro hg
   obtain ⟨ρ, h0, h1, h3⟩ := C15_no_leak W F m q hg
@@ -28,7 +28,7 @@ theorem C15_no_leak_contra (W : World) (F : Family) (m : Member) (q : T)
 /-- the same for the generated main impl: it only answers queries that instantiate its non-relaxed parameters
     with `Sized` types -/
 theorem C15_main_impl_sized (W : World) (F : Family) (m : Member) (q : T) :
-    genSel W F m q → ∃ τ, noEx τ ∧ inst τ F.hdr = q ∧ sizedOK W τ F.sizedParams := by
+    genSel W F m q → ∃ τ, wkF τ F = true ∧ inst τ F.hdr = q ∧ sizedOK W τ F.sizedParams := by
   rintro ⟨τ, _, h0, h1, h2, _⟩
   exact ⟨τ, h0, h1, h2⟩
 
@@ -38,14 +38,14 @@ theorem C15_main_impl_sized (W : World) (F : Family) (m : Member) (q : T) :
 theorem C15_unsized_exact (W : World) (F : Family) (m : Member) (q : T)
     (hm : memberOK F m = true) (hw : WorldTotal W F) (hθ : ThetaCovers F m) (hs : SizedCompat W F m) :
     genSel W F m q ↔
-      ∃ ρ, noEx ρ ∧ inst ρ m.blk.hdr = q ∧ (∀ c ∈ m.blk.clauses, holds W ρ c) ∧ sizedOK W ρ m.blk.sizedParams :=
+      ∃ ρ, wkB ρ m.blk = true ∧ inst ρ m.blk.hdr = q ∧ (∀ c ∈ m.blk.clauses, holds W ρ c) ∧ sizedOK W ρ m.blk.sizedParams :=
   C02_member_selected_iff_applies W F m q hm hw hθ hs
 
 /-- relaxing is monotone: dropping parameters from the `Sized` list of a block only adds queries -/
 theorem C15_relax_monotone (W : World) (b : Block) (ps : List String) (hsub : ∀ p ∈ ps, p ∈ b.sizedParams) (q : T) :
     applies W b q → applies W { b with sizedParams := ps } q := by
   rintro ⟨ρ, h0, h1, h2, h3⟩
-  exact ⟨ρ, h0, h1, h2, fun p hp => h3 p (hsub p hp)⟩
+  exact ⟨ρ, wkB_of_sub (b := b) (b' := { b with sizedParams := ps }) rfl (fun _ hc => hc) hsub h0, h1, h2, fun p hp => h3 p (hsub p hp)⟩
 
 /-- a member with its `Sized` list replaced -/
 def Member.relax (m : Member) (ps : List String) : Member := { m with blk := { m.blk with sizedParams := ps } }
@@ -87,7 +87,7 @@ example :
   refine ⟨"p", by simp, ?_⟩
   have : inst ρ (.tparam "p") = D7.str := by
     simp only [D7.bx] at he
-    rw [inst_node ρ hρ] at he
+    rw [inst_other ρ (by rfl)] at he
     simp only [instL] at he
     injection he with _ _ h3
     injection h3
